@@ -628,7 +628,14 @@ impl Rasn {
             | ASN1Type::ObjectClassField(_)
             | ASN1Type::EmbeddedPdv
             | ASN1Type::External => (vec![], quote!(Any)),
-            ASN1Type::ChoiceSelectionType(_) => unreachable!(),
+            // only selection types assigned to a type reference are linked to the selected alternative
+            ASN1Type::ChoiceSelectionType(_) => {
+                return Err(GeneratorError {
+                    details: "Selection types are only supported as top-level type assignments!".into(),
+                    top_level_declaration: None,
+                    kind: GeneratorErrorType::NotYetInplemented,
+                })
+            }
         })
     }
 
